@@ -56,6 +56,8 @@ def gen(seed, idx, tier):
 
 def _check(mjm, d, quat_adr, stats):
   qpos = d.qpos.numpy()
+  if not (np.all(np.isfinite(qpos)) and np.all(np.isfinite(d.qvel.numpy()))):
+    return None  # a world that has diverged to inf/NaN anywhere: nothing reported about it is a rotation any more (counted as skipped)
   out = []
   for w in range(qpos.shape[0]):
     for a in quat_adr:
